@@ -601,6 +601,16 @@ def case_persist(ctx, inp):
                 continue
             if _meta(o) != _meta(p):
                 ctx.fail(f"dask.{which} changed the metadata of a collection", sig=sig, observed=[_meta(o), _meta(p)])
+            if which == "persist" and type(o).__name__ in ("Array", "Bag", "Delayed"):
+                # graph-backed collections keep their output keys, and the persisted graph holds nothing but those keys
+                from dask.core import flatten
+                ok_, pk_ = list(flatten(o.__dask_keys__())), list(flatten(p.__dask_keys__()))
+                if ok_ != pk_:
+                    ctx.fail("dask.persist changed the output keys of a graph-backed collection", observed=[repr(ok_)[:150], repr(pk_)[:150]])
+                elif set(dict(p.__dask_graph__())) != set(pk_):
+                    ctx.fail("the graph of a persisted collection holds more than its output keys",
+                             observed=sorted(map(str, set(dict(p.__dask_graph__())) ^ set(pk_)))[:5])
+                ctx.branch("persist-same-keys")
             try:
                 got = _canon_result(p.compute(scheduler="sync"))
             except Exception as e:
@@ -801,8 +811,14 @@ def generate(ctx):
         args = [gen_tree(rng, 0, ids) for _ in range(rng.randint(0, 4))]
         yield "unpack", {"args": args, "traverse": rng.random() < 0.8}
     # function level: operand grouping
-    for _ in range(ctx.n(40, 600)):
-        yield "tune", {"ids": [rng.randrange(12) for _ in range(rng.randint(1, 7))]}
+    # every sequence of optimizers (delayed / array / bag) up to length 4 (thorough: 6), then random longer ones
+    import itertools
+    for ln in range(1, 5 if not ctx.thorough() else 7):
+        for combo in itertools.product([0, 1, 2], repeat=ln):
+            # ids with kind = id % 4 in (delayed, array, bag): distinct ids per position so that keys differ
+            yield "tune", {"ids": [k + 4 * (pos + 1) for pos, k in enumerate(combo)]}
+    for _ in range(ctx.n(20, 300)):
+        yield "tune", {"ids": [rng.randrange(12) for _ in range(rng.randint(5, 9))]}
     # function level: scheduler choice
     def spec():
         k = rng.randrange(7)
